@@ -78,6 +78,74 @@ def collect(path):
     return out
 
 
+# functions whose branch structure is transcribed by a Lean decision model (Model/Evolve.lean route / in-place
+# refusal / scalar sites, Model/Algo.lean series loops, Model/Guards.lean, the classification cascade of C06)
+DECISION_FUNCS = [("src/fqe/wavefunction.py", "Wavefunction.time_evolve"),
+                  ("src/fqe/wavefunction.py", "Wavefunction.apply"),
+                  ("src/fqe/wavefunction.py", "Wavefunction.apply_generated_unitary"),
+                  ("src/fqe/wavefunction.py", "Wavefunction._evolve_individual_nbody"),
+                  ("src/fqe/fqe_decorators.py", "build_hamiltonian"),
+                  ("src/fqe/fqe_decorators.py", "process_rank2_matrix"),
+                  ("src/fqe/fqe_decorators.py", "check_diagonal_coulomb"),
+                  ("src/fqe/hamiltonians/sparse_hamiltonian.py", "SparseHamiltonian.is_individual")]
+
+
+def decisions(path, qualname):
+    """the tests of every if / elif / while / conditional expression and every `break`, `for ... else` of one function,
+    in source order"""
+    tree = ast.parse(open(os.path.join(REPO, path)).read())
+    target = None
+
+    def find(node, prefix):
+        nonlocal target
+        for child in ast.iter_child_nodes(node):
+            if isinstance(child, (ast.FunctionDef, ast.ClassDef)):
+                name = (prefix + "." if prefix else "") + child.name
+                if name == qualname and isinstance(child, ast.FunctionDef):
+                    target = child
+                find(child, name)
+    find(tree, "")
+    if target is None:
+        raise SyntaxError(f"{path}: function {qualname} not found")
+    out = []
+
+    def walk(st):
+        if isinstance(st, ast.If):
+            out.append("if " + ast.unparse(st.test))
+            for s2 in st.body:
+                walk(s2)
+            if st.orelse:
+                out.append("else")
+                for s2 in st.orelse:
+                    walk(s2)
+            out.append("endif")
+        elif isinstance(st, (ast.For, ast.While)):
+            out.append(("for " + ast.unparse(st.target) + " in " + ast.unparse(st.iter)) if isinstance(st, ast.For)
+                       else "while " + ast.unparse(st.test))
+            for s2 in st.body:
+                walk(s2)
+            if st.orelse:
+                out.append("loop-else")
+                for s2 in st.orelse:
+                    walk(s2)
+            out.append("endloop")
+        elif isinstance(st, ast.Break):
+            out.append("break")
+        elif isinstance(st, ast.Raise):
+            out.append("raise " + (ast.unparse(st.exc.func) if isinstance(st.exc, ast.Call) else ast.unparse(st.exc) if st.exc else ""))
+        elif isinstance(st, ast.Return):
+            out.append("return")
+        elif isinstance(st, (ast.FunctionDef, ast.ClassDef)):
+            return
+        else:
+            for s2 in ast.iter_child_nodes(st):
+                if isinstance(s2, ast.stmt):
+                    walk(s2)
+    for st in target.body:
+        walk(st)
+    return out
+
+
 def main():
     entries = []
     for f in FILES:
@@ -89,6 +157,15 @@ def main():
             "/-- (file, function, kind, exception class, triggering condition) for every guard of the anchored modules -/",
             "def inventory : List (String × String × String × String × String) := ["]
     text.append(",\n".join(f'  ("{esc(a)}", "{esc(b)}", "{esc(c)}", "{esc(d)}", "{esc(e)}")' for a, b, c, d, e in entries))
+    text.append("]")
+    text.append("")
+    text.append("/-- branch skeleton (tests of if / loops, break, raise, return in source order) of the functions whose control\n"
+                "    flow is transcribed by a Lean decision model -/")
+    text.append("def decisionSkeleton : List (String × String × List String) := [")
+    rows = []
+    for f, q in DECISION_FUNCS:
+        rows.append(f'  ("{esc(f)}", "{esc(q)}", [' + ", ".join(f'"{esc(x)}"' for x in decisions(f, q)) + "])")
+    text.append(",\n".join(rows))
     text.append("]")
     text.append("")
     text.append("end GenGuards")
